@@ -123,7 +123,22 @@ fn exec(bm: &Arc<AtomicBitmap>, op: &Op) -> (Option<Vec<u64>>, Option<bool>) {
         }
         Op::Harvest => (Some(bm.get_and_reset()), None),
         Op::CloneRead => {
-            let c = (**bm).clone();
+            // a fresh clone, or a copy made into an existing, larger and fully dirty bitmap of the same
+            // granularity (Clone::clone_from): either way the copy holds the source's pages and no others
+            let c = if bm.len() % 2 == 0 {
+                (**bm).clone()
+            } else {
+                let ps = NonZeroUsize::new((bm.byte_size() / bm.len().max(1)).max(1)).unwrap();
+                let mut d = in_mode(Mode::Oracle, || {
+                    let d = AtomicBitmap::new(bm.byte_size() + 200 * ps.get(), ps);
+                    for i in 0..d.len() {
+                        d.set_bit(i);
+                    }
+                    d
+                });
+                d.clone_from(&**bm);
+                d
+            };
             let words = in_mode(Mode::Oracle, || c.get_and_reset());
             (Some(words), None)
         }
